@@ -230,6 +230,9 @@ type cliPkg struct {
 	P     *Program
 	Class byte   // 'S', 'F', 'N'
 	Prior string // absent identical stale garbage dirsquat
+	// OddFileName: the injector file is renamed to a name with a byte order mark in it (the go
+	// tool accepts it; wire copies the name into a comment of the generated file)
+	OddFileName bool
 }
 
 type cliScenario struct {
@@ -340,6 +343,11 @@ func runCLI(e *Env, rep *Report, rc *refCache, s cliScenario, cmd string, mu *sy
 	if err := prepareModule(e, root, progs); err != nil {
 		incon(err.Error())
 		return
+	}
+	for _, p := range s.Pkgs {
+		if p.OddFileName {
+			os.Rename(filepath.Join(root, p.P.ID, "app", "wire.go"), filepath.Join(root, p.P.ID, "app", "wi\ufeffre.go"))
+		}
 	}
 	prefix := ""
 	if cmd == "gen" {
@@ -639,6 +647,22 @@ func CheckC17(e *Env) int {
 			if cmd == "diff" && o.Prefix != "" {
 				continue
 			}
+			jobs = append(jobs, job{s, cmd})
+		}
+	}
+	{
+		// a package that analyses cleanly but whose generated text cannot be formatted (a byte
+		// order mark in the injector's file name ends up in a comment): it counts as failing,
+		// and what it had before stays
+		s := genScenario(e, 2)
+		k++
+		s.ID = fmt.Sprintf("sh%02d", k)
+		s.Opts = cliOpts{}
+		s.Form = "gen ./..."
+		odd := cliS(3).Clone()
+		odd.ID = "oddname"
+		s.Pkgs = []cliPkg{{P: cliS(1), Class: 'S', Prior: "stale"}, {P: odd, Class: 'F', Prior: "stale", OddFileName: true}}
+		for _, cmd := range []string{"gen", "diff"} {
 			jobs = append(jobs, job{s, cmd})
 		}
 	}
